@@ -566,6 +566,7 @@ type pcDriver struct {
 	net           *simkit.Net // HTTP mode
 	stalledOpen   int
 	httpOpen      int // HTTP source calls in progress (also those of the automatic refresh)
+	fullRefreshAt []int64 // steps at which a complete (uncancelled) refresh published
 }
 
 func (d *pcDriver) newVer(prov string, t int) *recVer {
@@ -644,6 +645,7 @@ func (d *pcDriver) publishAction(p *simkit.Parked) *simkit.Action {
 				d.r.Logf("~model", "cancelled refresh publishes partial results")
 			} else {
 				d.m.applyRefresh(calls, d.lastSrcRel)
+				d.fullRefreshAt = append(d.fullRefreshAt, d.r.Step())
 				d.r.Logf("~model", "refresh publishes: visible=%v", d.m.visible())
 			}
 			if site == "2" {
@@ -941,7 +943,20 @@ func (d *pcDriver) verify(op *pcOp) {
 		if op.published {
 			r.Probe("refresh-completed")
 		} else {
+			// The call found an update in progress and waited for it instead
+			// of refreshing itself. That is a refresh "completed without
+			// error" only if a complete refresh published while it waited; a
+			// lookup miss or a refresh that was cancelled part-way is not.
 			r.Probe("refresh-waited")
+			covered := false
+			for _, st := range d.fullRefreshAt {
+				if st >= op.startAt {
+					covered = true
+				}
+			}
+			if !covered {
+				r.Violate(o+".refresh", "Refresh by %s returned nil without consulting any source, and no complete refresh published while it waited (the update in progress was a lookup miss or a refresh that was cancelled) [started at step %d, complete refreshes published at %v]", op.task, op.startAt, d.fullRefreshAt)
+			}
 		}
 	}
 }
